@@ -408,6 +408,9 @@ type c13Env struct {
 	rawStore         *NurseryStore
 	net              *ccNurseryNet
 	nurseryPublished map[wire.OutPoint]bool
+	// cribMoved: HTLC outpoints whose timeout-tx output the nursery store
+	// moved from crib to kindergarten (durably).
+	cribMoved map[wire.OutPoint]bool
 
 	inputs []c13InputRec
 
@@ -443,6 +446,7 @@ func newC13Env(sc *ccScenario, plan *c13Plan, w *ccWorld) *c13Env {
 		tapClaims: make(map[wire.OutPoint]ccClaim),
 
 		nurseryPublished: make(map[wire.OutPoint]bool),
+		cribMoved:        make(map[wire.OutPoint]bool),
 		net:              &ccNurseryNet{w: w},
 	}
 	if plan.conf > ccP {
